@@ -1730,6 +1730,8 @@ func (t *itype) lookupField(name string) []int {
 			return nil
 		}
 		seen[typ] = true
+		// A type is marked only along the current path, so that it can be found again at a lower depth.
+		defer delete(seen, typ)
 
 		switch typ.cat {
 		case linkedT, ptrT:
@@ -1739,7 +1741,12 @@ func (t *itype) lookupField(name string) []int {
 			return []int{fi}
 		}
 
+		// Only the fields of embedded fields are promoted. The field at the shallowest depth is selected.
+		var index []int
 		for i, f := range typ.field {
+			if !f.embed {
+				continue
+			}
 			switch f.typ.cat {
 			case ptrT, structT, interfaceT, linkedT:
 				if tias != isStruct(f.typ) {
@@ -1747,13 +1754,13 @@ func (t *itype) lookupField(name string) []int {
 					// Struct fields are not valid interface fields.
 					break
 				}
-				if index2 := lookup(f.typ); len(index2) > 0 {
-					return append([]int{i}, index2...)
+				if index2 := lookup(f.typ); len(index2) > 0 && (index == nil || len(index2) < len(index)-1) {
+					index = append([]int{i}, index2...)
 				}
 			}
 		}
 
-		return nil
+		return index
 	}
 
 	return lookup(t)
